@@ -1,4 +1,5 @@
 """C20 - the bandwidth limit is respected and transparent to the data."""
+import asyncio
 import io
 import os
 import random
@@ -68,6 +69,10 @@ def limiter_case(draw):
         streams.append({'mode': mode, 'ops': ops, 'latency': draw(st.lists(st.sampled_from([0.0, 0.0, 0.001, 0.01, 0.2, 1.5]), min_size=1, max_size=4)),
                         'seed': draw(st.integers(0, 999)),
                         'accept': draw(st.sampled_from([None, None, None, max(1, q // 2), max(1, q // 3), max(1, q // 5), max(1, q // 8)])) if mode == 'w' else None})
+    for sp in streams:
+        # the caller is a coroutine: the coroutine back ends (S3, B2) read from / write to the wrapped stream on the
+        # thread that runs the event loop
+        sp['in_loop'] = draw(st.sampled_from([0, 0, 1]))
     J = draw(st.sampled_from([0.0, 0.001, 0.05]))
     return {'kind': 'limiter', 'L': L, 'streams': streams, 'J': J,
             'overshoots': draw(st.lists(st.sampled_from([0.0, J / 2, J]), min_size=1, max_size=5)),
@@ -243,8 +248,19 @@ def _limiter(case):
                     problems.append(fail('sink-data', f'stream {sid}: underlying stream content/position differs from the model '
                                          f'({len(under.raw.getvalue())} vs {len(model.getvalue())} bytes)'))
             return body
+        def on_loop_thread(body):
+            def f():
+                async def main():
+                    body()
+                asyncio.run(main())
+            return f
         for i, st_ in enumerate(case['streams']):
-            sc.spawn(make(i, st_), f'stream{i}')
+            body = make(i, st_)
+            if st_.get('in_loop'):
+                if 'caller-is-a-coroutine' not in classes:
+                    classes.append('caller-is-a-coroutine')
+                body = on_loop_thread(body)
+            sc.spawn(body, f'stream{i}')
         try:
             sc.run()
         except sched.SchedError as e:
